@@ -487,6 +487,52 @@ class World(object):
             self.equality_checks(op)
         elif self.mode == "C10":
             self.indx_roundtrips(op)
+        elif self.mode == "C02":
+            self.count_cubes(op)
+
+    def count_cubes(self, op):
+        """C02 over indexes with a history: the count cube of every live non-negative index (alone, and crossed
+        with another live index of the same length) equals the table counted from the dense model."""
+        np = _np()
+        from catii import ccube
+
+        live = [(n, o) for n, o in enumerate(self.objs)
+                if o.ix.common >= 0 and all(k[0] >= 0 for k in o.ix) and o.model.size
+                and int(o.model.max()) <= 300 and o.ix.common <= 300]
+        for n, o in live:
+            groups = [[o]]
+            for m, p in live:
+                if m > n and p.ix.shape[0] == o.ix.shape[0]:
+                    groups.append([o, p])
+                    break
+            for grp in groups:
+                tails = [g.model.shape[1:] for g in grp]
+                nsub = 1
+                for t in tails:
+                    for e in t:
+                        nsub *= e
+                if nsub > 24:
+                    continue
+                with libcall("ccube(indexes made by %s).count()" % "/".join(g.born for g in grp)):
+                    res = ccube([g.ix for g in grp]).count(return_missing_as=(0, False))
+                vals, valid = res
+                ext = [max(int(g.model.max()), g.ix.common) + 1 for g in grp]
+                for pos in itertools.product(*[itertools.product(*[range(e) for e in t]) for t in tails]):
+                    cols = [g.model[(slice(None),) + pp] for g, pp in zip(grp, pos)]
+                    want = np.zeros(ext, dtype=np.int64)
+                    np.add.at(want, tuple(cols), 1)
+                    flat = tuple(x for pp in pos for x in pp)
+                    got = np.asarray(vals)[flat]
+                    gvalid = np.asarray(valid)[flat]
+                    if got.shape != want.shape or not np.array_equal(np.where(gvalid, got, 0), want) \
+                            or not np.array_equal(gvalid, want > 0):
+                        raise Violation(
+                            "after %s: count cube over index(es) made by %s, block %s, is\n%s\nbut the rows give\n%s" % (
+                                op["op"], "/".join(g.born for g in grp), flat, np.where(gvalid, got, 0).tolist(),
+                                want.tolist()), sig="count cube wrong after %s" % grp[0].born)
+                self.flags.add("cube over an index made by " + grp[0].born)
+                if self.rec is not None:
+                    self.rec.count("cubes_checked", 1)
 
     def indx_roundtrips(self, op):
         """C10 over machine-made indexes: save -> load is the identity for every non-negative live index."""
@@ -973,7 +1019,10 @@ def make_machine(mode, rec, tier, guard=None):
 def nontrivial_history(mode, w, case, rec):
     pats = {"append after shift", "update after append", "reindex with a merge",
             "collapse with an omitted present value"}
-    if mode == "C10":
+    if mode == "C02":
+        ok = any(f.startswith("cube over an index made by ") and not f.endswith(" new") for f in w.flags) \
+            and w.mutations >= 1
+    elif mode == "C10":
         ok = any(f.startswith("roundtrip of an index made by ") and not f.endswith(" new") for f in w.flags)
     elif mode == "C15":
         ok = bool(w.flags & {"equal content reached by different histories", "equal keys but different row ids",
